@@ -104,16 +104,16 @@ func c41ExpectNum(v c41Val, field string) c41Exp {
 	switch class {
 	case "absent":
 		if field == "routes.mtu" {
-			return c41Exp{c41MustRefuse, 0, class, "required field absent"}
+			return c41Exp{c41MustRefuse, 0, class, "is absent (required)"}
 		}
 		return c41Exp{c41MustLoad, def, class, ""}
 	case "nil":
 		if field == "routes.mtu" {
-			return c41Exp{c41MustRefuse, 0, class, "required field is null"}
+			return c41Exp{c41MustRefuse, 0, class, "is null (required)"}
 		}
 		return c41Exp{c41Either, def, class, ""}
 	case "malformed string", "other YAML type":
-		return c41Exp{c41MustRefuse, 0, class, "not an integer: " + class}
+		return c41Exp{c41MustRefuse, 0, class, "is not an integer (" + class + ")"}
 	}
 	inRange := false
 	if n.IsInt64() {
@@ -130,7 +130,7 @@ func c41ExpectNum(v c41Val, field string) c41Exp {
 		}
 	}
 	if !inRange {
-		return c41Exp{c41MustRefuse, 0, class, "out of range (given as " + class + ")"}
+		return c41Exp{c41MustRefuse, 0, class, "is out of range (given as " + class + ")"}
 	}
 	if class == "lenient string" {
 		return c41Exp{c41Either, n.Int64(), class, ""}
@@ -167,7 +167,7 @@ func c41ExpectInstall(v c41Val) c41Exp {
 			return c41Exp{c41Either, 0, "lenient", ""}
 		}
 	}
-	return c41Exp{c41MustRefuse, 0, "not a boolean", "install is not a boolean"}
+	return c41Exp{c41MustRefuse, 0, "not a boolean", "is not a boolean"}
 }
 
 // bit i (0 = most significant) of a 4- or 16-byte address
@@ -201,15 +201,15 @@ type c41RouteExp struct {
 
 func c41ExpectRoute(v c41Val, nets []netip.Prefix, unsafe bool) c41RouteExp {
 	if !v.present {
-		return c41RouteExp{c41Exp{c41MustRefuse, 0, "absent", "route absent"}, netip.Prefix{}}
+		return c41RouteExp{c41Exp{c41MustRefuse, 0, "absent", "is absent"}, netip.Prefix{}}
 	}
 	s, ok := v.v.(string)
 	if !ok {
-		return c41RouteExp{c41Exp{c41MustRefuse, 0, "not a string", "route is not a prefix string"}, netip.Prefix{}}
+		return c41RouteExp{c41Exp{c41MustRefuse, 0, "not a string", "is not a prefix string"}, netip.Prefix{}}
 	}
 	p, err := netip.ParsePrefix(s)
 	if err != nil {
-		return c41RouteExp{c41Exp{c41MustRefuse, 0, "malformed prefix", "route does not parse"}, netip.Prefix{}}
+		return c41RouteExp{c41Exp{c41MustRefuse, 0, "malformed prefix", "does not parse as a prefix"}, netip.Prefix{}}
 	}
 	inside, overlap := false, false
 	for _, n := range nets {
@@ -223,7 +223,7 @@ func c41ExpectRoute(v c41Val, nets []netip.Prefix, unsafe bool) c41RouteExp {
 	if unsafe {
 		switch {
 		case inside:
-			return c41RouteExp{c41Exp{c41MustRefuse, 0, "inside a network", "unsafe route inside the overlay networks"}, p}
+			return c41RouteExp{c41Exp{c41MustRefuse, 0, "inside a network", "is inside the overlay networks"}, p}
 		case overlap:
 			return c41RouteExp{c41Exp{c41Either, 0, "contains a network", ""}, p}
 		}
@@ -232,7 +232,7 @@ func c41ExpectRoute(v c41Val, nets []netip.Prefix, unsafe bool) c41RouteExp {
 	if inside {
 		return c41RouteExp{c41Exp{c41MustLoad, 0, "inside a network", ""}, p}
 	}
-	return c41RouteExp{c41Exp{c41MustRefuse, 0, "not inside a network", "route not inside the overlay networks"}, p}
+	return c41RouteExp{c41Exp{c41MustRefuse, 0, "not inside a network", "is not inside the overlay networks"}, p}
 }
 
 // ---- via
@@ -258,16 +258,16 @@ type c41ViaExp struct {
 
 func c41ExpectVia(v c41Via) c41ViaExp {
 	if !v.present {
-		return c41ViaExp{c41Exp: c41Exp{c41MustRefuse, 0, "absent", "via absent"}}
+		return c41ViaExp{c41Exp: c41Exp{c41MustRefuse, 0, "absent", "is absent"}}
 	}
 	if !v.isList {
 		s, ok := v.scalar.(string)
 		if !ok {
-			return c41ViaExp{c41Exp: c41Exp{c41MustRefuse, 0, "other YAML type", "via is neither a string nor a list"}}
+			return c41ViaExp{c41Exp: c41Exp{c41MustRefuse, 0, "other YAML type", "is neither a string nor a list"}}
 		}
 		a, err := netip.ParseAddr(s)
 		if err != nil {
-			return c41ViaExp{c41Exp: c41Exp{c41MustRefuse, 0, "malformed address", "via does not parse"}}
+			return c41ViaExp{c41Exp: c41Exp{c41MustRefuse, 0, "malformed address", "does not parse as an address"}}
 		}
 		return c41ViaExp{c41Exp: c41Exp{c41MustLoad, 0, "address string", ""}, gws: []routing.Gateway{routing.NewGateway(a, 1)}}
 	}
@@ -277,15 +277,15 @@ func c41ExpectVia(v c41Via) c41ViaExp {
 	out := c41ViaExp{c41Exp: c41Exp{c41MustLoad, 0, "gateway list", ""}}
 	for _, g := range v.list {
 		if g.raw != nil {
-			return c41ViaExp{c41Exp: c41Exp{c41MustRefuse, 0, "gateway list", "list element is not a map"}}
+			return c41ViaExp{c41Exp: c41Exp{c41MustRefuse, 0, "gateway list", "has a list element that is not a map"}}
 		}
 		s, ok := g.gateway.v.(string)
 		if !g.gateway.present || !ok {
-			return c41ViaExp{c41Exp: c41Exp{c41MustRefuse, 0, "gateway list", "gateway absent or not a string"}}
+			return c41ViaExp{c41Exp: c41Exp{c41MustRefuse, 0, "gateway list", "has a gateway that is absent or not a string"}}
 		}
 		a, err := netip.ParseAddr(s)
 		if err != nil {
-			return c41ViaExp{c41Exp: c41Exp{c41MustRefuse, 0, "gateway list", "gateway does not parse"}}
+			return c41ViaExp{c41Exp: c41Exp{c41MustRefuse, 0, "gateway list", "has a gateway that does not parse"}}
 		}
 		w := c41ExpectNum(g.weight, "weight")
 		out.weights = append(out.weights, w)
@@ -624,7 +624,11 @@ func c41Run(c *mc.Check, t *c41Tally, entries []c41Entry, nets []netip.Prefix, n
 			d["panic"] = fmt.Sprint(pan)
 		}
 		if err == nil && pan == nil {
-			d["loaded"] = fmt.Sprintf("%+v", routes)
+			var ls []string
+			for _, r := range routes {
+				ls = append(ls, fmt.Sprintf("{cidr:%v mtu:%d metric:%d install:%v via:[%v]}", r.Cidr, r.MTU, r.Metric, r.Install, r.Via))
+			}
+			d["loaded"] = ls
 		}
 		return d
 	}
@@ -765,9 +769,9 @@ func TestVerifC41(t *testing.T) {
 	num := mc.Pick(c, numQuick, numFull)
 
 	routeFull := []c41Val{sv("10.1.2.0/24"), sv("10.1.0.0/16"), sv("10.1.1.9/32"), sv("10.1.2.7/24"), sv("192.168.0.0/24"), sv("0.0.0.0/0"),
-		sv("10.0.0.0/8"), sv("fd00::/64"), sv("fd00::1:0/112"), sv("fd00:0:0:1::/64"), sv("2000::/3"),
+		sv("10.0.0.0/8"), sv("10.1.0.0/8"), sv("fd00::/64"), sv("fd00::1:0/112"), sv("fd00:0:0:1::/64"), sv("2000::/3"),
 		sv("10.1.2.0"), sv("10.1.2.0/33"), sv("abc"), sv(""), iv(5), ov("null", nil, "~"), abs}
-	routeQuick := []c41Val{sv("10.1.2.0/24"), sv("192.168.0.0/24"), sv("0.0.0.0/0"), sv("fd00::1:0/112"), sv("10.1.2.0/33"), abs}
+	routeQuick := []c41Val{sv("10.1.2.0/24"), sv("192.168.0.0/24"), sv("0.0.0.0/0"), sv("10.1.0.0/8"), sv("fd00::1:0/112"), sv("10.1.2.0/33"), abs}
 	routeSmall := []c41Val{sv("10.1.2.0/24"), sv("192.168.0.0/24"), sv("abc")}
 	routesA := mc.Pick(c, routeQuick, routeFull)
 
@@ -1052,10 +1056,11 @@ func TestVerifC41(t *testing.T) {
 		"parseUnsafeRoutes install=bool string", "parseUnsafeRoutes install=absent"} {
 		c.Require(tot.loadedClasses[k] > 0, "no loaded entry with %s", k)
 	}
-	for _, k := range []string{"mtu out of range (given as integer)", "mtu out of range (given as decimal string)", "mtu not an integer: malformed string",
-		"metric out of range (given as integer)", "metric not an integer: malformed string", "route unsafe route inside the overlay networks",
-		"route route not inside the overlay networks", "route route does not parse", "via via absent", "install install is not a boolean",
-		"via weight out of range (given as integer)"} {
+	for _, k := range []string{"mtu is out of range (given as integer)", "mtu is out of range (given as decimal string)", "mtu is not an integer (malformed string)",
+		"mtu is not an integer (other YAML type)", "mtu is absent (required)", "metric is out of range (given as integer)", "metric is not an integer (malformed string)",
+		"route is inside the overlay networks", "route is not inside the overlay networks", "route does not parse as a prefix", "route is absent",
+		"via is absent", "via does not parse as an address", "via has a gateway that does not parse", "install is not a boolean",
+		"via weight is out of range (given as integer)", "via weight is not an integer (malformed string)"} {
 		c.Require(tot.refusedWhy[k] > 0, "reference never refused for reason %q (have %v)", k, c41Keys(tot.refusedWhy))
 	}
 	c.Set("evaluations", tot.evals)
